@@ -23,7 +23,8 @@ use crate::kc::Kc;
 
 type Fail = (String, String);
 
-const NAMES: &[&str] = &["a", "b", "c", "d", "e", "f"];
+// "..data" and "..." are ordinary names (a Kubernetes volume has "..data"); only "." and ".." are special
+const NAMES: &[&str] = &["a", "b", "c", "d", "e", "f", "..data", "..."];
 
 fn cpath(p: &Path) -> CString {
     CString::new(p.as_os_str().as_bytes()).unwrap()
